@@ -440,10 +440,10 @@ theorem reexport_move {proj : Project} {rank : List Nat} (wf : WFacts proj rank)
     {s : St} (hI : PdInv proj s) (hb : s.bad = false) {d x : Nat} {n a : Name}
     (hr : ((d, n, x, a) : Req) ∈ reexportReqs proj) (hxp : getPs s x = .processing) (hdp : getPs s d = .processed)
     (hpend : ∀ o, s.reg.objs[x]? = some o → dget o.contents a = none) {ex : List Name} (hex : ex.contains a = true) :
-    (handleReExport s x ex n a d).2 = true ∧ (handleReExport s x ex n a d).1.bad = false ∧
-    PdInv proj (handleReExport s x ex n a d).1 ∧ Ext proj s (handleReExport s x ex n a d).1 ∧
-    movedB proj (handleReExport s x ex n a d).1 (d, n, x, a) = true ∧ HasEntry (handleReExport s x ex n a d).1 x a ∧
-    FrameX proj (some x) [a] s (handleReExport s x ex n a d).1 := by
+    (handleReExport pm s x ex n a d).2 = true ∧ (handleReExport pm s x ex n a d).1.bad = false ∧
+    PdInv proj (handleReExport pm s x ex n a d).1 ∧ Ext proj s (handleReExport pm s x ex n a d).1 ∧
+    movedB proj (handleReExport pm s x ex n a d).1 (d, n, x, a) = true ∧ HasEntry (handleReExport pm s x ex n a d).1 x a ∧
+    FrameX proj (some x) [a] s (handleReExport pm s x ex n a d).1 := by
   have hdl : d < proj.length := req_definer_lt hr
   have hxl : x < proj.length := (req_stmt hr).1
   obtain ⟨hdx, hplain, hdef, hnl, hns⟩ := rx.reqOk _ hr
@@ -496,7 +496,7 @@ theorem reexport_move {proj : Project} {rank : List Nat} (wf : WFacts proj rank)
     unfold reexportCandidate
     have : getObj s.reg d = some od := hod
     simp only [this, hdc]
-  have hnb : moveBlocked s x ob = false := by
+  have hmo : isModuleObj s.reg ob = false := by
     obtain ⟨oob, hoob⟩ : ∃ oob, s.reg.objs[ob]? = some oob := ⟨s.reg.objs[ob]'(path_lt hA), by simp [path_lt hA]⟩
     obtain ⟨Sob, hkob, hpob⟩ := hI.site ob oob hoob
     have hmo : isModuleObj s.reg ob = false := by
@@ -517,8 +517,19 @@ theorem reexport_move {proj : Project} {rank : List Nat} (wf : WFacts proj rank)
           have h2 := dget_of_path hI.reg hpm
           rw [h1] at h2; injection h2 with h2; subst h2; exact Below.refl
         exact module_not_below wf hI hdl hmlt hplain hA hbm
+    exact hmo
+  have hnb : moveBlocked s x ob = false := by
     unfold moveBlocked
     simp [hmo]
+  -- the candidate sits directly in the definer, a module
+  have hml : notModuleLevel s ob = false := by
+    obtain ⟨co, hco, hcp, _⟩ := hI.reg.tree.coh d od n ob hod (mem_of_dget hdc)
+    have hgo : getObj s.reg ob = some co := hco
+    have hgd : getObj s.reg d = some od := hod
+    have hmd : isModuleObj s.reg d = true := by
+      unfold isModuleObj; simp only [hgd, hcld]; unfold modCls; split <;> rfl
+    unfold notModuleLevel
+    simp [hgo, hcp, hmd]
   have hnl' : listedIn s d n = false := by
     unfold listedIn
     rw [hI.alls d hdl, hdp]
@@ -527,9 +538,9 @@ theorem reexport_move {proj : Project} {rank : List Nat} (wf : WFacts proj rank)
     | none => rfl
     | some l => simp only [hl, Option.getD_some] at hnl; exact hnl
   have hne : (!ex.contains a) = false := by rw [hex]; rfl
-  have hre : handleReExport s x ex n a d = doMove s x ob a := by
-    unfold handleReExport
-    simp only [hne, Bool.false_eq_true, if_false, hcand, hnb, hnl']
+  have hre : handleReExport pm s x ex n a d = doMove s x ob a := by
+    unfold handleReExport processBeforeMove
+    simp only [hne, Bool.false_eq_true, if_false, hcand, hnb, hml, hnl', hmo]
   rw [hre]
   -- `reparent` raises nothing
   have hfree : dget s.reg.all (pathOf proj x ++ [a]) = none :=
@@ -647,7 +658,7 @@ theorem visitImportFrom_ok {proj : Project} {rank : List Nat} (wf : WFacts proj 
     have hplain := (rx.reqOk _ hr).2.1
     simp only at hplain
     have := hs2eq hplain; subst this
-    obtain ⟨m1, m2, m3, m4, m5, m6, m7⟩ := reexport_move wf rx hro hI1 hb1 hr hc1.ps htp hpend1 hcx
+    obtain ⟨m1, m2, m3, m4, m5, m6, m7⟩ := reexport_move (pm := pm) wf rx hro hI1 hb1 hr hc1.ps htp hpend1 hcx
     simp only [m1, if_true]
     refine ⟨m2, m3, he1.trans m4, ?_, ?_⟩
     · simp only [CompleteStmt]
@@ -685,8 +696,8 @@ theorem starOne_ok {proj : Project} {rank : List Nat} (wf : WFacts proj rank) (r
     {lvl : Nat} {M T : Path} (hst : Stmt.importStar lvl M ∈ full) (hT : pdAbsName proj S.1 lvl M = some T)
     {t : Nat} (ht : t < proj.length) (hu : ∀ t', modIdx proj T = some t' → t = t') {x : Name}
     (hx : starOk proj t x ∧ (x ∈ allNames (bodyOf proj t) ∨ HasEntry s t x)) (hb : s.bad = false) :
-    (starOne ctx t [] s x).bad = false ∧ PdInv proj (starOne ctx t [] s x) ∧ Ext proj s (starOne ctx t [] s x) ∧
-    FrameX proj (some ctx) [] s (starOne ctx t [] s x) := by
+    (starOne pm ctx t [] s x).bad = false ∧ PdInv proj (starOne pm ctx t [] s x) ∧ Ext proj s (starOne pm ctx t [] s x) ∧
+    FrameX proj (some ctx) [] s (starOne pm ctx t [] s x) := by
   have hS := hc.stat
   have hp : path s.reg ctx = some (loc proj s S) := by rw [hc.locc hI]; exact hc.pathc
   unfold starOne
@@ -753,13 +764,13 @@ theorem starFold_ok {proj : Project} {rank : List Nat} (wf : WFacts proj rank) (
     (hu : ∀ t', modIdx proj T = some t' → t = t') :
     ∀ (l : List Name) (s : St), PdInv proj s → Ctx proj rank s mod ctx S full →
       (∀ x ∈ l, starOk proj t x ∧ (x ∈ allNames (bodyOf proj t) ∨ HasEntry s t x)) → s.bad = false →
-      (l.foldl (starOne ctx t []) s).bad = false ∧ PdInv proj (l.foldl (starOne ctx t []) s) ∧
-      Ext proj s (l.foldl (starOne ctx t []) s) ∧ FrameX proj (some ctx) [] s (l.foldl (starOne ctx t []) s)
+      (l.foldl (starOne pm ctx t []) s).bad = false ∧ PdInv proj (l.foldl (starOne pm ctx t []) s) ∧
+      Ext proj s (l.foldl (starOne pm ctx t []) s) ∧ FrameX proj (some ctx) [] s (l.foldl (starOne pm ctx t []) s)
   | [], s, hI, _, _, hb => ⟨hb, hI, Ext.refl _ s, FrameX.refl _ _ _ _⟩
   | x :: xs, s, hI, hc, hx, hb => by
     simp only [List.foldl_cons]
     obtain ⟨hb1, hI1, he1, hf1⟩ := starOne_ok wf rx hI hc hst hT ht hu (hx x (List.mem_cons_self ..)) hb
-    have hx' : ∀ y ∈ xs, starOk proj t y ∧ (y ∈ allNames (bodyOf proj t) ∨ HasEntry (starOne ctx t [] s x) t y) := by
+    have hx' : ∀ y ∈ xs, starOk proj t y ∧ (y ∈ allNames (bodyOf proj t) ∨ HasEntry (starOne pm ctx t [] s x) t y) := by
       intro y hy
       obtain ⟨h1, h2⟩ := hx y (List.mem_cons_of_mem _ hy)
       exact ⟨h1, h2.imp id (fun h => hasEntry_ext he1 h)⟩
